@@ -10,7 +10,12 @@ Fail-closed: a construct the translator does not understand aborts the generatio
    with timeout_wrapper, the tables around every library step of open();
  * base_socket.Socket: tables around sock.send(b"") (isalive), sock.shutdown (close), getaddrinfo, connect;
  * channel: the except clauses of the two Telnet login loops, whether the asyncio loop sleeps on every path,
-   and that no other channel read/write loop contains a try / suppress."""
+   and that no other channel read/write loop contains a try / suppress;
+ * the writes INSIDE read() of the two Telnet transports (option negotiation replies): every send / write call
+   reachable from read() (read, _read, _handle_control_chars, _handle_control_chars_response and the helpers they
+   call), the try/except tables between its low-level send and the caller of read() (the transport's own write()
+   included when the reply goes through it), and whether the handler's per-byte guard is the truth value of the
+   Socket object (a liveness probe) -- an `ncfg` of coq/model/ConnLossNeg.v."""
 import ast
 import os
 import sys
@@ -373,6 +378,73 @@ def transport_facts(strict):
     return out, sock_alive, sock_shutdown, trees
 
 
+WRITE_ATTRS = ("send", "sendall", "sendto", "sendmsg", "write", "writelines", "send_return")
+
+
+def negotiation_facts(trees, facts):
+    """per Telnet transport: (n_probe, n_reply tables) -- see the module docstring"""
+    out = {}
+    sock = find_class(trees["socket"], "Socket")
+    sock_bool = [n for n in sock.body if isinstance(n, ast.FunctionDef) and n.name in ("__bool__", "__len__")]
+    if [n.name for n in sock_bool] != ["__bool__"] or ast.unparse(sock_bool[0].body[-1]) != "return self.isalive()":
+        raise Unknown("base_socket.Socket: truth value not understood")
+    for k, low_write in (("telnet", "self.socket.sock.send"), ("asynctelnet", "self.stdin.write")):
+        cls = find_class(trees[k], CLASSES[k])
+        methods = {n.name: n for n in cls.body if isinstance(n, (ast.FunctionDef, ast.AsyncFunctionDef))}
+        # the functions reachable from read() (self.<method>() calls, transitively), write() itself aside
+        reach, todo = [], ["read"]
+        while todo:
+            m = todo.pop()
+            if m in reach or m == "write":
+                continue
+            if m not in methods:
+                raise Unknown("%s: read() reaches self.%s, not a method of the class" % (k, m))
+            reach.append(m)
+            for c in ast.walk(methods[m]):
+                if isinstance(c, ast.Call) and isinstance(c.func, ast.Attribute) and ast.unparse(c.func.value) == "self":
+                    todo.append(c.func.attr)
+        handler = "_handle_control_chars_response"
+        if reach[:1] != ["read"] or handler not in reach or "_handle_control_chars" not in reach:
+            raise Unknown("%s: read() does not reach the option negotiation handler" % k)
+        is_reply = lambda c: ast.unparse(c.func) in ("self.write", low_write)      # noqa: E731
+        for m in reach:
+            for c in ast.walk(methods[m]):
+                if isinstance(c, ast.Call) and call_attr(c) in WRITE_ATTRS and not (m == handler and is_reply(c)):
+                    raise Unknown("%s.%s: a write inside read() the model does not know: %s" % (k, m, ast.unparse(c)[:60]))
+        nsites = sum(1 for c in ast.walk(methods[handler]) if isinstance(c, ast.Call) and is_reply(c))
+        if not nsites:
+            raise Unknown("%s: no reply to the server's options found" % k)
+        # the way out: handler <- _handle_control_chars <- read (no other caller on the read path)
+        outer = enclosing_tables(methods["_handle_control_chars"], attr_call("self." + handler)) + \
+            enclosing_tables(methods["read"], attr_call("self._handle_control_chars"))
+        chains = []
+        sites = sorted(((c.lineno, c.col_offset, ast.unparse(c.func)) for c in ast.walk(methods[handler])
+                        if isinstance(c, ast.Call) and is_reply(c)))
+        for i, (_, _, path) in enumerate(sites):
+            around = enclosing_tables(methods[handler], is_reply, which=i)
+            inner = []
+            if path == "self.write":
+                if not facts[k]["write_guard"]:
+                    raise Unknown("%s: write() without its guard" % k)
+                inner = facts[k]["write_tbls"]
+            chains.append(inner + around + outer)
+        if any(ch != chains[0] for ch in chains):
+            raise Unknown("%s: the reply sites of the negotiation handler differ in their exception handling" % k)
+        # the per-byte guard
+        probe = False
+        first = [s for s in methods[handler].body if not (isinstance(s, ast.Expr) and isinstance(s.value, ast.Constant))][0]
+        if isinstance(first, ast.If) and len(first.body) == 1 and isinstance(first.body[0], ast.Raise) \
+                and raised_class(first.body[0]) == "SNotOpened":
+            t = ast.unparse(first.test)
+            if t == "not self.socket":
+                probe = True
+            elif t not in ("self.socket is None", "not self.stdout", "not self.stdin", "self.stdout is None",
+                           "self.stdin is None", "not self.stdin or not self.stdout", "not self.stdout or not self.stdin"):
+                raise Unknown("%s: guard of the negotiation handler not understood: %s" % (k, t))
+        out[k] = (probe, chains[0], [p for _, _, p in sites])
+    return out
+
+
 def login_facts(trees):
     sc = find_func(find_class(trees["sync_channel"], "Channel"), "channel_authenticate_telnet")
     ac = find_func(find_class(trees["async_channel"], "AsyncChannel"), "channel_authenticate_telnet")
@@ -425,7 +497,7 @@ def generate(outdir):
         if pyc[NAMES[k]] is not v:
             raise Unknown("%s is not %s on this interpreter: the model merges them" % (k, NAMES[k]))
     lines = ["(* generated from the scrapli source tree by gen/gen_connloss.py -- do not edit *)",
-             "From Verif Require Import Bytes ConnLoss.", ""]
+             "From Verif Require Import Bytes ConnLoss ConnLossNeg.", ""]
     lines.append("Definition gen_supers (x : cls) : list cls :=\n  match x with")
     for a in CLS:
         sup = [b for b in CLS if issubclass(pyc[a], pyc[b])]
@@ -448,6 +520,12 @@ def generate(outdir):
                 info[k] = {kk: (vv if isinstance(vv, bool) else [[list(map(list, t)) if False else [[cs, a] for cs, a in t] for t in ts] for ts in ([vv] if kk != "open_tbls" else vv)])
                            for kk, vv in f.items()}
         if not strict:
+            neg = negotiation_facts(trees, facts)
+            for k in ("telnet", "asynctelnet"):
+                lines.append("Definition gen_ncfg_%s : ncfg := mkNcfg %s %s." % (k, coq_bool(neg[k][0]), coq_tables(neg[k][1])))
+            lines.append("Definition gen_ncf (tr : transport) : ncfg :=\n  match tr with Telnet => gen_ncfg_telnet | _ => gen_ncfg_asynctelnet end.")
+            info["negotiation"] = {k: {"guard_probes": v[0], "reply_tables": [[[cs, a] for cs, a in t] for t in v[1]],
+                                       "reply_sites": v[2]} for k, v in neg.items()}
             lines.append("Definition gen_sock_alive : list table := %s." % coq_tables(sock_alive))
             lines.append("Definition gen_sock_shutdown : list table := %s." % coq_tables(sock_shutdown))
             info["sock_alive"] = [[[cs, a] for cs, a in t] for t in sock_alive]
